@@ -464,6 +464,9 @@ package litefs
 //@   pure
 //@ func litefs.OS.*
 //@   pure
+//@ func litefs.OS.ReadDir
+//@   pure
+//@   ensures forall i int :: 0 <= i && i < len(ret0) ==> ret0[i] != nil
 //@ func litefs.OS.OpenFile
 //@   pure
 //@   ensures ret1 == nil ==> ret0 != nil
@@ -667,8 +670,8 @@ package litefs
 //@   nopanic
 
 //@ func (db *DB) recomputeBlockChksum [C04]
-//@   requires  db != nil && len(db.chksums.pages) <= 0xffffffff && len(db.chksums.blocks) <= 0xffffffff && block <= 0xffffff && chkArraysDisjoint(db)
-//@   loop 1 invariant i <= 256 && len(db.chksums.blocks) > int(block)
+//@   requires  db != nil && len(db.chksums.pages) <= 0xffffffff && len(db.chksums.blocks) <= 0xffffffff && block < 0xffffff && chkArraysDisjoint(db)
+//@   loop 1 invariant i <= 256 && len(db.chksums.blocks) > int(block) && (i > 0 ==> chksum & ltx.ChecksumFlag != 0)
 //@   loop 1 decreases 256 - int(i)
 //@   modifies  db.chksums.blocks, contents(db.chksums.blocks)
 //@   ensures   len(db.chksums.blocks) > int(block) && len(db.chksums.blocks) >= old(len(db.chksums.blocks)) && len(db.chksums.blocks) <= 0xffffffff
@@ -677,7 +680,7 @@ package litefs
 //@   nopanic
 
 //@ func (db *DB) blockChksum [C04]
-//@   requires  db != nil && len(db.chksums.pages) <= 0xffffffff && len(db.chksums.blocks) <= 0xffffffff && block <= 0xffffff && chkArraysDisjoint(db)
+//@   requires  db != nil && len(db.chksums.pages) <= 0xffffffff && len(db.chksums.blocks) <= 0xffffffff && block < 0xffffff && chkArraysDisjoint(db)
 //@   modifies  db.chksums.blocks, contents(db.chksums.blocks)
 //@   ensures   len(db.chksums.blocks) <= 0xffffffff && chkArraysDisjoint(db)
 //@   ensures   result != 0
@@ -763,4 +766,102 @@ package litefs
 //@ func readSQLiteDatabaseHeader [C02,C16,C05]
 //@   requires  r != nil
 //@   ensures   err == nil ==> hdr.PageSize >= 512 && hdr.PageSize <= 65536 && hdr.PageSize & (hdr.PageSize - 1) == 0
+//@   nopanic
+
+// ===========================================================================
+// db.go — blocking write-lock acquisition, startup and recovery (C05, C11, C13)
+
+// AcquireWriteLock: retries TryAcquireWriteLock until it succeeds, the callback reports an error, or the
+// context ends. The callback (used by the halt lock to detect a racing acquire with the same ID) is
+// assumed not to modify lock state.
+//@ func (db *DB) AcquireWriteLock [C11,C13,C05]
+//@   requires  db != nil && locksWF(db) && typeis(aload(db.mode), DBMode) && ctx != nil
+//@   callee dyn.fn pure
+//@   loop 1 invariant locksWF(db) && typeis(aload(db.mode), DBMode)
+//@   ensures   locksWF(db)
+//@   ensures   err == nil ==> result0 != nil && fresh(result0) && guardSetWF(result0, db)
+//@   ensures   err == nil && dbModeIs(db, DBModeRollback) ==> holdsWriteLockRollback(result0)
+//@   ensures   err == nil && !dbModeIs(db, DBModeRollback) ==> holdsWriteLockWAL(result0)
+//@   ensures   err != nil ==> result0 == nil
+//@   nopanic
+
+// recover: the journal is rolled back first, then the WAL is checkpointed; both errors propagate.
+//@ func (db *DB) recover [C05,C17,C11,C13]
+//@   requires  dbWF(db)
+//@   ghost stage int = 0
+//@   on call DB.rollbackJournal assert stage == 0 ; then stage = (ret0 == nil ? 1 : stage)
+//@   on call DB.CheckpointNoLock assert stage == 1 ; then stage = (ret0 == nil ? 2 : stage)
+//@   ensures   err == nil ==> stage == 2
+//@   ensures   dbWF(db)
+//@   nopanic
+
+// CheckpointNoLock: pages are copied from the WAL only through writeDatabasePage(…, invalidate=true) with the
+// offsets readWALPageOffsets returned; the size is restored to the last commit iff there was one; then the
+// WAL is truncated to zero, the in-memory WAL checksums are dropped and the SHM is rewritten.
+//@ func (db *DB) CheckpointNoLock [C05,C17,C03]
+//@   requires  dbWF(db)
+//@   ghost stage int = 0
+//@   ghost nonEmpty bool = false
+//@   on call DB.readWALPageOffsets assert stage == 0 ; then stage = (ret2 == nil ? 1 : stage), nonEmpty = len(ret0) > 0
+//@   on call DB.writeDatabasePage assert stage == 1 && nonEmpty && arg4 == true
+//@   on call DB.truncateDatabase assert stage == 1 && nonEmpty && arg2 == commit ; then stage = (ret0 == nil ? 2 : stage)
+//@   on call DB.TruncateWAL assert (stage == 2 || (stage == 1 && !nonEmpty)) && arg2 == 0 ; then stage = (ret0 == nil ? 3 : stage)
+//@   on call DB.updateSHM assert stage == 3 ; then stage = (ret0 == nil ? 4 : stage)
+//@   loop 1 invariant stage == 1 && nonEmpty && dbWF(db) && db.pageSize != 0 && len(buf) == int(db.pageSize) && walFile != nil && dbFile != nil
+//@   ensures   err == nil ==> stage == 4 || stage == 0
+//@   ensures   dbWF(db)
+//@   nopanic
+
+//@ func (db *DB) TruncateWAL [C05,C03,C16]
+//@   requires  db != nil && db.os != nil
+//@   modifies  db.wal.frameOffsets, db.wal.chksums
+//@   ensures   err == nil ==> size == 0 && db.wal.chksums != nil && db.wal.frameOffsets != nil && fresh(db.wal.chksums) && (forall p uint32 :: !has(db.wal.chksums, p))
+//@   ensures   err != nil ==> unchanged(db.wal.frameOffsets, db.wal.chksums)
+//@   nopanic
+
+// syncWALToLTX: the newest LTX file is verified before its WAL fields are used; the WAL is truncated only
+// to exactly WALOffset+WALSize and only when its salts match the file's; it is renamed away when they do not.
+//@ func (db *DB) syncWALToLTX [C05]
+//@   requires  dbWF(db)
+//@   ghost verified bool = false
+//@   on call ltx.Decoder.Verify ; then verified = (ret0 == nil)
+//@   on call os.File.Truncate assert verified && arg1 == dec.header.WALOffset + dec.header.WALSize
+//@   on call OS.Rename op "SYNCWAL" assert verified
+//@   nopanic
+
+// maxLTXFile: returns the name with the greatest max TXID among the names that parse as LTX files.
+//@ func (db *DB) maxLTXFile [C05,C09]
+//@   requires  dbWF(db)
+//@   loop 1 invariant -1 <= rangeindex && rangeindex < len(ents)
+//@   nopanic
+
+//@ func (db *DB) initFromDatabaseHeader [C05]
+//@   requires  dbWF(db)
+//@   ensures   err == nil ==> dbWF(db)
+//@   nopanic
+
+// initDatabaseFile: the per-page checksum slice has one slot per page of the header's page count, slots at and
+// beyond the first unreadable page are zero, the lock page's slot is zero, no block aggregate is cached.
+//@ func (db *DB) initDatabaseFile [C05,C04]
+//@   requires  dbWF(db)
+//@   ensures   err == nil ==> dbWF(db)
+//@   nopanic
+
+// Open: header → ltx dir → SHM removed → newest LTX chosen → WAL trimmed to it → journal rolled back and WAL
+// checkpointed → checksums rebuilt → newest LTX re-applied under the full write lock, which is released on every return.
+//@ func (db *DB) Open [C05,C11]
+//@   requires  dbWF(db) && locksWF(db)
+//@   ghost stage int = 0
+//@   ghost locked bool = false
+//@   on call DB.initFromDatabaseHeader assert stage == 0 ; then stage = (ret0 == nil ? 1 : stage)
+//@   on call OS.Remove op "OPEN:SHM" assert stage == 1 ; then stage = 2
+//@   on call DB.maxLTXFile assert stage == 2 ; then stage = (ret1 == nil ? 3 : stage)
+//@   on call DB.syncWALToLTX assert stage == 3 && arg2 == ltxFilename && ltxFilename != ""
+//@   on call DB.recover assert stage == 3 ; then stage = (ret0 == nil ? 4 : stage)
+//@   on call DB.initDatabaseFile assert stage == 4 ; then stage = (ret0 == nil ? 5 : stage)
+//@   on call DB.AcquireWriteLock assert stage == 5 && ltxFilename != "" ; then locked = (ret1 == nil)
+//@   on call DB.ApplyLTXNoLock assert stage == 5 && locked && arg1 == ltxFilename && arg2 == false ; then stage = (ret0 == nil ? 6 : stage)
+//@   on call GuardSet.Unlock assert locked ; then locked = false
+//@   on return assert !locked
+//@   ensures   err == nil ==> (stage == 5 && ltxFilename == "") || stage == 6
 //@   nopanic
